@@ -57,7 +57,40 @@ func (fr *frame) freshResults(v ssa.Value, st *state, sig *types.Signature, tag 
 	return out
 }
 
+// doCall wraps the call with the state invariants of the sweep: asserted before a call that enters a function of the
+// sweep verified on its own (not executed in place), assumed again afterwards.
 func (fr *frame) doCall(b *ssa.BasicBlock, st *state, ins ssa.Instruction, call *ssa.CallCommon, v ssa.Value) {
+	vc := fr.vc
+	var invs []*clause
+	if vc.layer != "" && len(vc.w.db.Invariants[vc.layer]) > 0 {
+		if _, isB := call.Value.(*ssa.Builtin); !isB {
+			fns, _ := vc.ma.callees(call)
+			for _, f := range fns {
+				if call.IsInvoke() || !fr.willInline(f) {
+					if cl := vc.scopeInvariants(f); cl != nil {
+						invs = cl
+					}
+				}
+			}
+		}
+	}
+	if len(invs) > 0 {
+		vc.nInvSites++
+		for k, cl := range invs {
+			tr := &trans{c: vc.c, pkg: cl.Target, vars: map[string]tvar{}, cur: st, old: vc.entry, depth: 1}
+			f := vc.trClause(tr, cl)
+			vc.addObl(&obligation{Name: fmt.Sprintf("pre@call%d/%s.%d", vc.nInvSites, cl.Label, k+1), Kind: "pre", Goal: and(fr.cond[b], not(f)), Pos: vc.pos(ins.Pos()), Clause: "invariant " + cl.Src, Inputs: vc.inputTerms()})
+			vc.c.assume(implies(fr.cond[b], f))
+		}
+	}
+	fr.doCall0(b, st, ins, call, v)
+	for _, cl := range invs {
+		tr := &trans{c: vc.c, pkg: cl.Target, vars: map[string]tvar{}, cur: st, old: vc.entry, depth: 1}
+		vc.c.assume(implies(fr.cond[b], vc.trClause(tr, cl)))
+	}
+}
+
+func (fr *frame) doCall0(b *ssa.BasicBlock, st *state, ins ssa.Instruction, call *ssa.CallCommon, v ssa.Value) {
 	vc := fr.vc
 	c := vc.c; _ = c
 	if bi, ok := call.Value.(*ssa.Builtin); ok {
